@@ -24,7 +24,7 @@ def once_only_callbacks(ck, tier, seed, replay):
     return True
 
 
-def free_running(ck, tier):
+def free_running(ck, tier, only=None):
     """Uncontrolled goroutines under the Go race detector (harness/cmd/vstress): the controlled schedules cannot split a read-modify-write
     that sits between two yield points, and their hand-overs order every access; here the race detector reports conflicting accesses to
     the SDK's state that no lock orders, and the monitors are the property's own (operations on sessions nobody closed succeed)."""
@@ -34,7 +34,7 @@ def free_running(ck, tier):
     if not ok:
         ck.violation(ck.replay_file("build", {"obligation": "race-detector build of harness/cmd/vstress against /repo failed", "log": blog[-4000:]}), False)
         return False
-    outp = os.path.join(vlib.BUILD, "C08-stress-%d.json" % os.getpid())
+    outp = os.path.join(vlib.BUILD, "%s-stress-%d.json" % (ck.prop, os.getpid()))
     env = dict(os.environ)
     env["GORACE"] = "halt_on_error=0 exitcode=0"
     try:
@@ -47,6 +47,10 @@ def free_running(ck, tier):
     ck.oblige(rc == 0, "free-running harness run", (so + se)[-3000:])
     blocks = [b for b in re.split(r"={18}\n", se) if "WARNING: DATA RACE" in b]
     sdk = [b for b in blocks if re.search(r"godaddy/asherah/go/(appencryption|securememory)[./(]", b)]
+    if only:      # another property's clause on the same rounds (C06: "another partition's session")
+        for c in cases:
+            c["viol"] = [v for v in c.get("viol") or [] if only in v]
+        sdk = []
     viol = [c for c in cases if c.get("viol")]
     ck.oblige(not sdk, "no unsynchronised conflicting accesses to SDK state in %d free-running rounds x %d scenarios (Go race detector)" % (
         cases[0]["rounds"] if cases else 0, len(cases)), sdk[0][:3000] if sdk else "")
